@@ -26,6 +26,7 @@ import Bermuda.Lemmas.ExtendTotal
 import Bermuda.Lemmas.ExtendExamples
 import Bermuda.Lemmas.ExtendSpecTriUnit
 import Bermuda.Lemmas.ExtendFillTotal
+import Bermuda.Lemmas.ExtendTotalInc
 import Bermuda.Spec.C15
 namespace Bermuda.Properties.C15
 open Bermuda Bermuda.Extend
@@ -1210,5 +1211,53 @@ theorem exCells_rightTri_day_ok :
   have hot := mem_of_mem_slices hp ho
   simp only [exCells, List.mem_cons, List.not_mem_nil, or_false] at het hot
   rcases het with rfl | rfl | rfl <;> rcases hot with rfl | rfl | rfl <;> decide +kernel
+
+/-! ### the right-hand operators succeed on a complete incremental triangle -/
+
+/-- **rightDiag_total_incremental**: `make_right_diagonal` (default `include_historic = False`) RETURNS on a complete
+`IncrementalCell` triangle (`Complete` of C04: canonical, every row an unbroken chain from the day before the period
+start, one key set and value type per row) with canonical metadata, for distinct requested dates, as soon as no
+`CumulativeCell(...)` call raises: `to_cumulative` returns (C04 `toInc_toCum`), the cumulative operator returns
+(`rightDiag_total`), `to_incremental` of the added cells returns (C04 `toCum_toInc`) and
+`_fix_prev_evaluation_date` passes every constructor call. -/
+theorem rightDiag_total_incremental {t : List Cell} {dates : List Date} (hC : Properties.C04.Complete t)
+    (hinc : Triangle.isIncremental t = true) (hcanon : ∀ c ∈ t, c.md.Canon) (hd : dates.Nodup)
+    (hdates : ∀ e ∈ t, ∀ d ∈ dates, e.ps ≤ d → (emptyCell e d).datesOk = true) :
+    ∃ out, makeRightDiagonal t dates false = .ok out :=
+  makeRightDiagonal_ok_inc hC hinc hcanon hd hdates
+
+/-- **rightTri_total_incremental**: `make_right_triangle` (month unit) RETURNS on a complete `IncrementalCell`
+triangle, month-aligned from 1970 on, with canonical metadata, integer and distinct requested lags (or the slices' own
+lags), as soon as no `CumulativeCell(...)` call raises. -/
+theorem rightTri_total_incremental {t : List Cell} {lags : Option (List Rat)} (hC : Properties.C04.Complete t)
+    (hinc : Triangle.isIncremental t = true) (hcanon : ∀ c ∈ t, c.md.Canon)
+    (hal : ∀ c ∈ t, MonthAligned c)
+    (hint : ∀ l, lags = some l → ∀ lag ∈ l, ∃ k : Int, lag = ((k : Int) : Rat))
+    (hnd : ∀ l, lags = some l → l.Nodup)
+    (hcells : ∀ e ∈ t, ∀ l,
+      ((∃ ls, lags = some ls ∧ l ∈ ls) ∨ (lags = none ∧ ∃ o ∈ t, o.md = e.md ∧ o.devLag = l)) →
+      l > e.devLag → (emptyCell e (addMonths e.pe l)).datesOk = true) :
+    ∃ out, makeRightTriangleU t lags (some .month) = .ok out :=
+  makeRightTriangle_ok_inc hC hinc hcanon hal hint hnd hcells
+
+/-- the hypotheses of `rightDiag_total_incremental` hold for C04's complete incremental triangle `exU` -/
+theorem exU_rightDiag_ok : ∃ out, makeRightDiagonal Properties.C04.exU [⟨2023, 12, 31⟩, ⟨2024, 12, 31⟩] false = .ok out :=
+  rightDiag_total_incremental Properties.C04.exU_complete rfl (by decide +kernel) (by decide +kernel) (by decide +kernel)
+
+theorem exU_aligned : ∀ c ∈ Properties.C04.exU, MonthAligned c := by
+  intro c hc
+  simp only [Properties.C04.exU, List.mem_cons, List.not_mem_nil, or_false] at hc
+  rcases hc with rfl | rfl | rfl | rfl | rfl | rfl <;> (unfold MonthAligned; decide +kernel)
+
+/-- the hypotheses of `rightTri_total_incremental` hold for `exU` with the slices' own lags -/
+theorem exU_rightTri_ok : ∃ out, makeRightTriangleU Properties.C04.exU none (some .month) = .ok out := by
+  apply rightTri_total_incremental Properties.C04.exU_complete rfl (by decide +kernel) exU_aligned
+    (fun l hl => by cases hl) (fun l hl => by cases hl)
+  intro e he l hl hgt
+  rcases hl with ⟨ls, hls, _⟩ | ⟨_, o, ho, _, rfl⟩
+  · cases hls
+  · simp only [Properties.C04.exU, List.mem_cons, List.not_mem_nil, or_false] at he ho
+    rcases he with rfl | rfl | rfl | rfl | rfl | rfl <;>
+      rcases ho with rfl | rfl | rfl | rfl | rfl | rfl <;> revert hgt <;> decide +kernel
 
 end Bermuda.Properties.C15
